@@ -154,6 +154,18 @@ def scenario(sim):
     src.settimeout(timeout)
     dst.settimeout(60.0)
     data = sim.payload.randbytes(size)
+    payload = data
+    kind = sim.choose(6)
+    if kind == 0:
+        # text: the API takes str and sends its UTF-8 form (2- and 3-byte characters, size counted in bytes)
+        ch_ = ("\xa7", "\u20ac")[sim.choose(2)]
+        w_ = len(ch_.encode())
+        payload = ch_ * (size // w_) + "t" * (size % w_)
+        data = payload.encode()
+        sim.probe("text_payload")
+    elif kind == 1:
+        payload = memoryview(data)
+        sim.probe("memoryview_payload")
     desc = {"event": event, "phase": phase, "stream": "stderr" if stderr else "stdout", "size": size, "timeout": timeout,
             "peer_reads": reader, "sender": role, "latency": lat}
     result = {}
@@ -179,7 +191,7 @@ def scenario(sim):
     def call():
         result["start"] = sim.now
         try:
-            (src.sendall_stderr if stderr else src.sendall)(data)
+            (src.sendall_stderr if stderr else src.sendall)(payload)
             result["outcome"] = "returned"
             result["active_at_return"] = src.get_transport().is_active()
         except Exception as e:
